@@ -197,7 +197,7 @@ def _harness(c, cfg, prop):
 
     if prop == "C13":
         _c13(c, cfg, br, legs, reb, raised, q_before, m_before, cash_before, n_records, missing_liq,
-             roles, targets, measure)
+             roles, targets, measure, nlv_pre)
         return
     if isinstance(raised, EndOfEpisodeError):
         c.out_of_scope("account ruined by this rebalance (C09)")
@@ -302,22 +302,39 @@ def _harness(c, cfg, prop):
 
 
 def _c13(c, cfg, br, legs, reb, raised, q_before, m_before, cash_before, n_records, missing_liq,
-         roles, targets, measure):
+         roles, targets, measure, nlv_pre):
     if isinstance(raised, EndOfEpisodeError):
         return
     if missing_liq:
         c.prove("C13:rebalance-raises-when-held-position-lacks-liquidation-quote", raised is not None)
-    # a targeted contract whose execution side is missing must make the rebalance fail
+    # every trade this rebalance has to make needs its execution-side quote (ask to buy, bid to
+    # sell); if that quote is missing the rebalance must fail instead of silently dropping it
     needs = []
-    for leg in legs:
-        if roles[leg.tag] == "target":
-            t = targets[leg.tag]
-            px = _px(leg, t) if measure == "weight" else None
-            if measure == "weight" and _isnan(px):
-                needs.append(leg.tag)
+    imbalance = {}
+    if not missing_liq:
+        nlv = None
+        for leg in legs:
+            role = roles[leg.tag]
+            q0 = q_before[leg.tag]
+            if role in ("untargeted", "zero"):
+                tgt = 0.0
+            elif measure == "weight":
+                px = _px(leg, targets[leg.tag])
+                if _isnan(px):
+                    needs.append(leg.tag)
+                    continue
+                tgt = targets[leg.tag] * nlv_pre / px / leg.m
+            else:
+                tgt = targets[leg.tag]
+            imb = tgt - q0
+            imbalance[leg.tag] = imb
+            if imb != 0:
+                side = leg.ask if imb > 0 else leg.bid
+                if _isnan(side):
+                    needs.append(leg.tag)
     if needs:
-        c.prove("C13:rebalance-raises-when-target-lacks-execution-quote", raised is not None,
-                info={"needs": needs})
+        c.prove("C13:rebalance-raises-when-a-due-trade-lacks-its-execution-quote", raised is not None,
+                info={"needs": needs, "measure": measure})
     if raised is not None:
         for leg in legs:
             c.prove_eq("C13:failed-rebalance-leaves-position-unchanged",
@@ -338,6 +355,11 @@ def _c13(c, cfg, br, legs, reb, raised, q_before, m_before, cash_before, n_recor
             if _isnan(t.quantity) or _isnan(t.acq_price):
                 bad.append("trade")
         c.prove("C13:successful-rebalance-never-trades-or-holds-nan", not bad, info=bad)
+        # ... and has really made every due trade (nothing silently dropped): threshold is 0
+        for leg in legs:
+            if leg.tag in imbalance and not _isnan(imbalance[leg.tag]):
+                c.prove_eq("C13:successful-rebalance-reaches-every-target",
+                           br._holdings_quantity.get(leg.contract, 0.0), q_before[leg.tag] + imbalance[leg.tag])
         c.prove("C13:successful-rebalance-adds-one-record", len(br.track_record) == n_records + 1)
         nl = reb.context_post.nlv
         c.prove("C13:post-nlv-is-a-number", not _isnan(nl))
